@@ -92,7 +92,7 @@ def impl(case):
 def decode(sx, case):
     if sx[0] == "unsupported":
         return {"model": {}, "spec": {}, "in_domain": False, "skip": True}
-    _, fi, fa, spec, wf, afi, afa, std, ext = sx
+    _, fi, fa, spec, wf, afi, afa, std, ext = sx[:9]
     nodes = [SX.canon(SX.sx2j(n[1])) for n in spec[1]]
     fa_v = [SX.canon(SX.sx2j(v)) for v in fa[1]] if fa[0] == "ok" else ["err", fa[1]]
     fi_v = [SX.canon(SX.sx2j(m[2])) for m in fi[1]] if fi[0] == "ok" else ["err", fi[1]]
